@@ -35,13 +35,19 @@ Stat == {[replicas |-> 2, updated |-> 2, ready |-> 2], [replicas |-> 2, updated 
 ReplicaCases ==
   {[kind |-> "replicas", sets |-> <<[name |-> "a"] @@ s1, [name |-> "b"] @@ s2>>] : s1 \in Stat, s2 \in Stat}
 
+\* one StatefulSet watched over up to three calls of Replicas(), minutes passing in between
+SeqSteps == [st : {[replicas |-> 2, updated |-> 2, ready |-> 2], [replicas |-> 2, updated |-> 1, ready |-> 2], [replicas |-> 2, updated |-> 2, ready |-> 1],
+                   [replicas |-> 2, updated |-> 1, ready |-> 1]}, adv : {0, 1, 3}]
+ReplicaSeqCases == {[kind |-> "replicaseq", steps |-> s] : s \in UNION {[1..n -> SeqSteps] : n \in 1..3}}
+
 Predict(cs) ==
   CASE cs.kind = "list" -> [shards |-> ListShards(cs.pods)]
     [] cs.kind = "scale" -> LET r == ScaleResult(cs.replicas, cs.ntpl, Rng(cs.pvcs), cs.flag, cs.n, cs.updfail)
                             IN [replicas |-> r.replicas, pvcs |-> SetToSeq(r.pvcs), writes |-> r.updates]
+    [] cs.kind = "replicaseq" -> [coordinated |-> ReplicasSeq(-1, 0, cs.steps, 1)]
     [] cs.kind = "replicas" -> [managers |-> SelectSeq(<<"a", "b">>, LAMBDA nm : \E s \in Rng(cs.sets) : s.name = nm /\ Coordinated(s))]
 
-Init == c \in ScaleCases \cup ListCases \cup ReplicaCases /\ out = <<>>
+Init == c \in ScaleCases \cup ListCases \cup ReplicaCases \cup ReplicaSeqCases /\ out = <<>>
 Next == out = <<>> /\ out' = Predict(c) /\ UNCHANGED c
 Spec == Init /\ [][Next]_vars
 AtEnd == out # <<>>
